@@ -144,8 +144,8 @@ pub fn gen_graph(r: &mut Rng, big: bool) -> (&'static str, Adj) {
             ("cycle", a)
         }
         _ => {
-            // no edge at all / tiny
-            let n = r.range(1, 4) as usize;
+            // no edge at all / tiny / empty
+            let n = r.range(0, 4) as usize;
             let mut a = vec![Vec::new(); n];
             if n >= 2 && r.chance(1, 2) {
                 add_edge(&mut a, 0, 1, 1);
@@ -174,7 +174,11 @@ pub fn cut_of(a: &Adj, p: &[usize]) -> i64 {
 pub fn gen_partition(r: &mut Rng, adj: &Adj, ida: usize, idb: usize) -> (&'static str, Vec<usize>) {
     let n = adj.len();
     let pick = |b: bool| if b { idb } else { ida };
-    match r.below(6) {
+    if n == 0 {
+        return ("empty", Vec::new());
+    }
+    match r.below(7) {
+        6 => ("one_sided", vec![if r.chance(1, 2) { ida } else { idb }; n]),
         0 => {
             // balanced, random positions
             let mut idx: Vec<usize> = (0..n).collect();
